@@ -160,7 +160,11 @@ void vf_viol (const char *prop, const char *sig, const char *casefmt, ...)
 		}
 		unlock ();
 	}
-	atomic_fetch_add (&S->sig[i].count, 1);
+	{	/* cases kept per signature: the first 4 occurrences, then the occurrences number 8, 16, 32, ... (a spread over the
+		 * exploration: if the first cases depend on what the worker ran before and do not reproduce alone, later ones may) */
+		long occ = atomic_fetch_add (&S->sig[i].count, 1) + 1;
+		if (occ > 4 && (occ & (occ - 1))) return;
+	}
 	c = atomic_fetch_add (&S->sig[i].ncases, 1);
 	if (c >= VF_CASES_PER_SIG) { atomic_store (&S->sig[i].ncases, VF_CASES_PER_SIG); return; }
 	va_start (ap, casefmt);
